@@ -1,4 +1,5 @@
 import Mochi.Model.Broker
+import Mochi.Lemmas.BrokerInv
 /-!
 # C10 — Packet identifiers are unique per direction and never cross-contaminate
 
@@ -52,5 +53,24 @@ theorem C10_cross_counterexample :
 example : nextPacketID { packetID := 5, inflight := [{ id := 1 }] } 5 = some 2 := by decide
 /-- exhaustion is reported, not looped on -/
 example : nextPacketID { packetID := 1, inflight := [{ id := 1 }, { id := 2 }] } 2 = none := by decide
+
+end Mochi.Broker
+
+/-! ## All histories
+
+The in-flight map has one record per packet identifier in every state the broker model can reach:
+a corollary of the well-formedness invariant `WF` (`Mochi/Lemmas/BrokerInv.lean`), proved by induction
+over `step` for every op sequence whose `connect` ops use fresh connection numbers (`OpsFresh`). -/
+namespace Mochi.Broker
+
+theorem C10_inflight_ids_unique_all_histories :
+    ∀ caps ops, OpsFresh (init caps) ops → ∀ c ∈ (run (init caps) ops).objs, (c.inflight.map (·.id)).Nodup :=
+  fun caps ops h c hc => ((WF_run caps ops h).objs c hc).ids_nodup
+
+/-- non-vacuity: the hypothesis holds on a concrete history (a QoS 1 delivery deferred by Receive
+    Maximum 1, its release by a PUBACK, a parked CONNECT released) and the in-flight list is not empty -/
+example : OpsFresh (init {}) demoHistory := by decide
+example : ∃ c ∈ (run (init {}) demoHistory).objs, c.inflight ≠ [] := by decide
+example : (getObj (run (init {}) demoHistory) 1).inflight.map (·.id) = [3] := by decide
 
 end Mochi.Broker
